@@ -191,13 +191,13 @@ func record(out *core.Out, args []string, seed int64, sum *core.Summary) error {
 				var w [][3]int64
 				for u := 1; u <= n; u++ {
 					for v := u + 1; v <= n; v++ {
-						if rng.Float64() < dens*1.5 {
+						if rng.Float64() < dens*1.3 {
 							edges = append(edges, [2]int64{int64(u), int64(v)})
 							w = append(w, [3]int64{int64(u), int64(v), int64(rng.Intn(7) - 2)})
 						}
 					}
 				}
-				chk := chkFlags{Cliques: n <= 14 || len(edges) <= 2*n, Kcc: n <= 10, Weighted: i%4 == 1 || n > 10}
+				chk := chkFlags{Cliques: n <= 12 || len(edges) <= 2*n, Kcc: n <= 10, Weighted: i%4 == 1 || n > 10}
 				recUnd(out, sum, n, edges, w, seed, i, chk, n <= 9, 3)
 			}
 		}
